@@ -1394,6 +1394,8 @@ class Engine:
             elif isinstance(left, (VNum, VOptNum)) and isinstance(right, (VNum, VOptNum)):
                 x, y = num_pair(self.num(left, st, ast.unparse(n)), self.num(right, st, ast.unparse(n)))
                 conj.append({ast.Lt: x < y, ast.LtE: x <= y, ast.Gt: x > y, ast.GtE: x >= y, ast.Eq: x == y, ast.NotEq: x != y}[type(op)])
+            elif isinstance(left, VPySet) and isinstance(right, VPySet) and isinstance(op, (ast.Eq, ast.NotEq)):
+                conj.append(z3.BoolVal((left.items == right.items) == isinstance(op, ast.Eq)))
             elif isinstance(left, VStr) and isinstance(right, VStr):
                 conj.append(z3.BoolVal({ast.Eq: left.s == right.s, ast.NotEq: left.s != right.s}[type(op)]))
             elif isinstance(op, (ast.Eq, ast.NotEq)) and ((isinstance(left, VTuple) and isinstance(right, VStr)) or (isinstance(left, VStr) and isinstance(right, VTuple))):
